@@ -152,6 +152,14 @@ func genC25(t *rapid.T) c25Case {
 			c.Ops[i].Kind, c.Ops[i].Epoch = "honest", "current"
 		}
 	}
+	if !c.Concurrent && rapid.IntRange(0, 2).Draw(t, "relisten") == 0 {
+		// a listener whose only requester comes and goes, then it listens again while the first Listen call is still attached
+		q := rapid.IntRange(0, 2).Draw(t, "rq")
+		p := (q + 1 + rapid.IntRange(0, 1).Draw(t, "rp")) % 3
+		pat := []sop{{Op: "listen", P: q, Q: p}, {Op: "attach", P: p, Q: q}, {Op: "detach", P: p, Q: q}, {Op: "listen", P: q, Q: p}}
+		at := rapid.IntRange(0, len(c.Ops)).Draw(t, "rat")
+		c.Ops = append(append(append([]sop{}, c.Ops[:at]...), pat...), c.Ops[at:]...)
+	}
 	c.EndOrder = rapid.SliceOfN(rapid.IntRange(0, 30), 0, 12).Draw(t, "endorder")
 	return c
 }
